@@ -33,7 +33,7 @@ CHECKS = {
              "each call with spec/WireRule.tla over spec/KeyRule.tla: input error before a single byte is written, or exactly the intended "
              "command records (verb, prefixed key computed in TLA+, flags, expiry, length, data descriptor, cas, delta, effective noreply) and "
              "nothing left over.",
-        technique="TLA+ contract (WireRule.tla: Intended commands, key legality) evaluated by TLC over recorded calls; independent strict wire parser",
+        technique="TLA+ grammar + tokenizer (Proto.tla) model-checked for unambiguity / injection (ProtoMC.tla); TLA+ contract (WireRule.tla: Intended commands, key legality, tokenised raw bytes) evaluated by TLC over recorded calls",
         design_ref="4 C02", note=TRUST + " Data blocks are compared through (length, sha256) descriptors; numbers as decimal text (TLC integers are 32-bit)."),
     "C03": dict(
         category="model_checking",
@@ -244,6 +244,48 @@ NOT_YET = "check not built yet in this round (planned in DESIGN.md section 4); n
 ALL = ["C%02d" % i for i in range(1, 21)]
 
 
+# what was added after the first round (appended to the level text of each check)
+ADDED = {
+    "C01": " Also: the same programs with ignore_exc for the read operations; flush_all with a delay; the repository's own 106 integration "
+           "tests, run against the reference server through the fake socket module (lib/itplugin), every public call with its socket "
+           "activity validated by TLC against ConnRule.",
+    "C02": " spec/Proto.tla gives the request grammar (Render) and a strict tokenizer (Tokenize) in TLA+; TLC checks RoundTrip, Concatenation, "
+           "Prefix and the Injection lemma over a small byte alphabet (spec/ProtoMC.tla) and WireRule judges the raw bytes each call wrote "
+           "with that tokenizer (the Python parser is cross-checked against it). Also covered: stats arguments and operations without keys "
+           "(stats, cache_memlimit, version, quit, shutdown), the same text as stats argument / memory limit and as key on one client, "
+           "batches of 70-300 keys with the illegal key late, and what the repository's integration tests wrote (spec/SentRule.tla).",
+    "C03": " The outcome of a public call includes the number of reply bytes it left unread.",
+    "C04": " The grid now has 7 collection kinds (a key named more than once in list / iterator form: 120k points); values include subclasses "
+           "of str/int and mixed-type set_many batches.",
+    "C05": " Histories are replayed on Client, PooledClient and a one-server HashClient; multi-key fetches may name a key twice; "
+           "spec/ClientOps.tla models every method at wire level (commands, a faithful server, reply interpretation) and Cache.tla checks in "
+           "every reachable state that client + server refine the abstract cache (WireRefinesAbstract).",
+    "C06": " Also: HashClient stacks that give up on their server while it comes back (socket bookkeeping clauses only); the repository's "
+           "integration tests as a trace source (see C01).",
+    "C08": " What escapes a pooled call (capacity error or the call's own error, never an error raised inside pool.py), calls rejected "
+           "before any exchange next to ordinary calls (two preemptions), and 'a connection is given back only by its holder'.",
+    "C09": " Also: every public operation x every single-fault plan on the pooled stacks, misc operations in the sequences, calls that fail "
+           "without a connection fault (illegal key, dict-style read of an absent key), and 'nothing idle-expired stays pooled after a checkout'.",
+    "C10": " Interruption points now include: the request half sent, the error-path close() before / after the descriptor is closed, the "
+           "close of an idle-expired pooled connection, the pool's clean-up of a call rejected before any exchange.",
+    "C11": " Also: redundant add_node in the model and the histories, constructor-provided node lists, node names of several shapes, "
+           "refused add_server / remove_server leave the rotation as it was.",
+    "C12": " Multi-key answers have the shape of the per-key operation (gets_many through a pooled HashClient).",
+    "C13": " Also: connection-level errors that are no ConnectionError, server-answered errors that must not count as failures, per-server "
+           "clients that honour ignore_exc, 'a server that answered is not sent the same request again in that call', and the result of "
+           "multi-key reads under partial failure (written to by the harness afterwards: results are the caller's).",
+    "C15": " After the caller changed the object it got, deserialising the same stored form again must still return the stored value.",
+    "C16": " Also: keys named twice, dict-style access, construction with unusual spellings of the shared options (str / non-ASCII prefixes).",
+    "C17": " The wrapped client is a subclass instance with the mapping protocol; rc[k] (hit and miss), rc[k] = v and del rc[k] go through the same contract.",
+    "C18": " Half of the executions use plain argument values (negative / zero / large expiry, True/False/None, ...) compared by type and value; "
+           "a miss returns nothing (the harness writes into every result it gets).",
+    "C19": " The environment really fails nodes (open connection reset + refused): 'fault' events; blank IP fields without VPC addressing; "
+           "no node is left with two open connections.",
+    "C20": " Validation is also exercised through operations: get / get_many / set / delete on the three classes, with ignore_exc, with an "
+           "unreachable server, with an empty rotation, and after the same text was validated as a stats argument.",
+}
+
+
 def main():
     checks = []
     for pid in ALL:
@@ -257,7 +299,7 @@ def main():
             "evidence_file": f"/verif/evidence/{pid}.json",
             "replay_cmd_template": f"./check {pid} --replay {{path}}",
             "engine": "tlc",
-            "level_claimed": {"category": c["category"], "text": c["text"], "design_ref": c["design_ref"]},
+            "level_claimed": {"category": c["category"], "text": c["text"] + ADDED.get(pid, ""), "design_ref": c["design_ref"]},
             "level_note": c["note"],
             "technique": c["technique"],
         })
